@@ -534,6 +534,27 @@ func (r *Resolver) resolveOne(ctx context.Context, name, typ string) ([]any, err
 	return res, nil
 }
 
+// equalFoldASCII reports whether a and b are the same DNS name. Only the
+// ASCII letters are compared without regard to case. RFC 4343
+func equalFoldASCII(a, b string) bool {
+	if len(a) != len(b) {
+		return false
+	}
+	for i := 0; i < len(a); i++ {
+		x, y := a[i], b[i]
+		if 'A' <= x && x <= 'Z' {
+			x += 'a' - 'A'
+		}
+		if 'A' <= y && y <= 'Z' {
+			y += 'a' - 'A'
+		}
+		if x != y {
+			return false
+		}
+	}
+	return true
+}
+
 func (r *Resolver) resolveOneNoCache(ctx context.Context, name, typ string) ([]any, uint32, error) {
 	qq := &dns.Message{
 		ID: 0x0000,
@@ -564,7 +585,7 @@ func (r *Resolver) resolveOneNoCache(ctx context.Context, name, typ string) ([]a
 	want := strings.TrimSuffix(name, ".")
 	// DNS names are compared without regard to case.
 	owns := func(a dns.RR, name string) bool {
-		return strings.EqualFold(strings.TrimSuffix(a.Name, "."), name)
+		return equalFoldASCII(strings.TrimSuffix(a.Name, "."), name)
 	}
 	// Follow the CNAME chain first: the order of the records in the answer
 	// section carries no meaning. The chain cannot be longer than the
